@@ -81,6 +81,26 @@ Theorem C12_lookup_is_scan : forall s key, wf s ->
 Proof. exact get_bid_spec. Qed.
 Print Assumptions C12_lookup_is_scan.
 
+(* the same for tables of ANY size: the hypotheses are only that the by-name index is a sorted permutation of the s_bnum
+   slots - no bound by MAX_BOARD (100 in the default build, 20000 in the production build -tags docker, whose tables the
+   check drives with 2000 .. 20000 boards). A lookup that gives up after a fixed number of probes contradicts this on
+   every table deep enough (Proofs/C12_big.v: Example big_table_lookup, 2100 boards, the 14th probe finds the board). *)
+Theorem C12_lookup_is_scan_any_size : forall s key,
+  perm_ok (s_bnum s) (s_sn s) = true -> sorted_by (less_name (s_cache s)) (s_sn s) = true ->
+  (get_bid s key = Ok 0 /\ forall b, 0 <= b < s_bnum s -> casecmp key (name_of (gets (s_cache s) b)) <> 0)
+  \/ (exists b, 0 <= b < s_bnum s /\ get_bid s key = Ok (b + 1) /\ casecmp key (name_of (gets (s_cache s) b)) = 0).
+Proof. exact get_bid_spec_any. Qed.
+Print Assumptions C12_lookup_is_scan_any_size.
+
+(* ... in the form the harness exercises (op 7 of the model: the names of a big table and the by-name index the
+   implementation built, accepted by [lookup_ok] only if it is a sorted permutation): every answer is the scan's *)
+Theorem C12_big_table_lookup_is_scan : forall names sn key, lookup_ok names sn = true ->
+  let s := lookup_state names sn in
+  (get_bid s key = Ok 0 /\ forall b, 0 <= b < lenZ names -> casecmp key (name_of (gets (s_cache s) b)) <> 0)
+  \/ (exists b, 0 <= b < lenZ names /\ get_bid s key = Ok (b + 1) /\ casecmp key (name_of (gets (s_cache s) b)) = 0).
+Proof. exact lookup_all_is_scan. Qed.
+Print Assumptions C12_big_table_lookup_is_scan.
+
 (* a request never crashes and never hangs (the search terminates within its fuel) *)
 Theorem C12_no_crash_no_hang : forall u s r os, wf s -> create_board u s r os <> Crashed /\ create_board u s r os <> Hung.
 Proof. exact create_total. Qed.
